@@ -548,6 +548,55 @@ def r07_6(ctx):
     lib = ctx.lib
     d = detect_fn(lib)
     need = 4
+
+    def classify(b, bb, op, depth=0):
+        """[(ok, detail, body, bb)] for the bytes reaching the detector through `op` at block bb of b."""
+        tr = trace(b, op)
+        ok = False
+        det = f"detector input originates from {tr.origin[0] if tr.origin else '?'}"
+        if any(s[0] == "downcast" and s[1] == "Slice" for s in tr.steps):
+            return [(True, "whole input slice", b, bb)]
+        if tr.origin and tr.origin[0] == "arg" and depth < 3 and all(s[0] in ("use", "ref", "deref") for s in tr.steps):
+            # a helper that receives the bytes: judge every caller's operand
+            out = []
+            for cb in lib.bodies:
+                for cbb, ct in cb.calls():
+                    cf = fn_of(ct) or {}
+                    if (cf.get("resolved") or cf.get("def")) == b.id and len(ct["args"]) >= tr.origin[1]:
+                        out += classify(cb, cbb, ct["args"][tr.origin[1] - 1], depth + 1)
+            return out or [(False, f"helper {b.name} receives the detector input but has no resolved caller", b, bb)]
+        if tr.origin and tr.origin[0] == "call":
+            src = tr.origin[2]
+            sf = fn_of(src) or {}
+            cb = lib.by_id.get(sf.get("resolved") or sf.get("def"))
+            if cb and cb.raw.get("ret_ty", "").startswith("std::result::Result<&[u8], std::io::Error>") and len(src["args"]) == 2:
+                c = trace(b, src["args"][1])
+                v = c.origin[1].get("v") if c.origin and c.origin[0] == "const" else None
+                ok = isinstance(v, int) and v >= need and any(s[0] == "downcast" and s[1] in ("Continue", "Ok") for s in tr.steps)
+                det = f"prefix({v}) of the handle (captures at least that many bytes unless the source ends)"
+            elif cb and src["args"]:
+                # accessor of a local buffer: the buffer must have been filled by io::copy from take(N)
+                buf = trace(b, src["args"][0])
+                bl = buf.origin[2]["dest"]["l"] if buf.origin and buf.origin[0] == "call" else (buf.origin[1] if buf.origin and buf.origin[0] == "multi" else None)
+                for cb2, ct in b.calls():
+                    cf = fn_of(ct) or {}
+                    if cf.get("def") == "std::io::copy" and b.dominates(cb2, bb):
+                        w = trace(b, ct["args"][1])
+                        wl = w.origin[2]["dest"]["l"] if w.origin and w.origin[0] == "call" else None
+                        r = trace(b, ct["args"][0])
+                        if wl == bl and r.origin and r.origin[0] == "call" and (fn_of(r.origin[2]) or {}).get("def") == "std::io::Read::take":
+                            lv = trace(b, r.origin[2]["args"][1])
+                            v = lv.origin[1].get("v") if lv.origin and lv.origin[0] == "const" else None
+                            import r_bin
+
+                            sws = r_bin.result_switches(b, ct["dest"]["l"])
+                            after_ok = any(oks and all(b.dominates(o, bb) for o in oks[:1]) for _, _, oks in sws)
+                            ok = isinstance(v, int) and v >= need and after_ok
+                            det = f"buffer filled by io::copy(reader.take({v}), ..) (loops until {v} bytes or EOF)"
+            else:
+                det = f"detector input comes from {sf.get('def')}: a single read/fill_buf may return fewer than {need} bytes of a longer stream"
+        return [(ok, det, b, bb)]
+
     n = 0
     for b in lib.bodies:
         for bb, t in b.calls():
@@ -555,41 +604,6 @@ def r07_6(ctx):
             if (f.get("resolved") or f.get("def")) != d.id:
                 continue
             n += 1
-            key = f"detect-input:{b.name}"
-            tr = trace(b, t["args"][0])
-            ok = False
-            det = f"detector input originates from {tr.origin[0] if tr.origin else '?'}"
-            if any(s[0] == "downcast" and s[1] == "Slice" for s in tr.steps):
-                ok, det = True, "whole input slice"
-            elif tr.origin and tr.origin[0] == "call":
-                src = tr.origin[2]
-                sf = fn_of(src) or {}
-                cb = lib.by_id.get(sf.get("resolved") or sf.get("def"))
-                if cb and cb.raw.get("ret_ty", "").startswith("std::result::Result<&[u8], std::io::Error>") and len(src["args"]) == 2:
-                    c = trace(b, src["args"][1])
-                    v = c.origin[1].get("v") if c.origin and c.origin[0] == "const" else None
-                    ok = isinstance(v, int) and v >= need and any(s[0] == "downcast" and s[1] in ("Continue", "Ok") for s in tr.steps)
-                    det = f"prefix({v}) of the handle (captures at least that many bytes unless the source ends)"
-                elif cb and src["args"]:
-                    # accessor of a local buffer: the buffer must have been filled by io::copy from take(N)
-                    buf = trace(b, src["args"][0])
-                    bl = buf.origin[2]["dest"]["l"] if buf.origin and buf.origin[0] == "call" else (buf.origin[1] if buf.origin and buf.origin[0] == "multi" else None)
-                    for cb2, ct in b.calls():
-                        cf = fn_of(ct) or {}
-                        if cf.get("def") == "std::io::copy" and b.dominates(cb2, bb):
-                            w = trace(b, ct["args"][1])
-                            wl = w.origin[2]["dest"]["l"] if w.origin and w.origin[0] == "call" else None
-                            r = trace(b, ct["args"][0])
-                            if wl == bl and r.origin and r.origin[0] == "call" and (fn_of(r.origin[2]) or {}).get("def") == "std::io::Read::take":
-                                lv = trace(b, r.origin[2]["args"][1])
-                                v = lv.origin[1].get("v") if lv.origin and lv.origin[0] == "const" else None
-                                import r_bin
-
-                                sws = r_bin.result_switches(b, ct["dest"]["l"])
-                                after_ok = any(oks and all(b.dominates(o, bb) for o in oks[:1]) for _, _, oks in sws)
-                                ok = isinstance(v, int) and v >= need and after_ok
-                                det = f"buffer filled by io::copy(reader.take({v}), ..) (loops until {v} bytes or EOF)"
-                else:
-                    det = f"detector input comes from {sf.get('def')}: a single read/fill_buf may return fewer than {need} bytes of a longer stream"
-            ctx.ob(key, ok, site(b, bb), det)
+            for ok, det, sb, sbb in classify(b, bb, t["args"][0]):
+                ctx.ob(f"detect-input:{sb.name}", ok, site(sb, sbb), det)
     ctx.ob("detect-call-sites", n >= 2, "lib", f"{n} call site(s) of the encoding detector")
